@@ -16,7 +16,7 @@ func init() {
 		DoesNotCover: "Interleavings of concurrent committers are not explored (the version checks they rely on are C02/C37); correctness of the binary search and of the comparer (C29/C30) is assumed.",
 	}, runC05)
 	register("C06", propMeta{
-		Explanation:  "Decides the bookkeeping pairing behind the store count: (R1) in Btree.Add and Btree.AddItem StoreInfo.Count++ executes on exactly the paths that return (true, nil); in Btree.RemoveCurrentItem Count-- executes exactly once on every path on which a removal primitive succeeded and that does not return an error, and on no other path; no other function of package btree writes Count; (R2) the committed delta is Count minus the count seen at open (getCommitStoresInfo), the rollback delta is the same operands swapped (getRollbackStoresInfo), and fs.StoreRepository.Update adds the caller's delta to the freshly read count of the same store under the store lock (shared with C13.R3); (R3) the refetch-and-merge closure resets both StoreInfo.Count and the count-at-open baseline from the same freshly read store record before replaying, and the only other writer of the baseline is the constructor; (R4) rollback applies the reverse delta only when the commit had passed the commitStoreInfo step and never to stores this transaction created. (R5) positional pairing of rollback store infos and backends; (R6) in fs.StoreRepository.Update and its undo closure the record put into the cache after a write is the record that was written; (R7) the count delta a dead transaction's log replay must subtract is carried by an encoded field of the log record (StoreInfo.CountDelta itself is excluded from JSON). (R8) the window between writing the store counts and logging the next step must be covered by recovery (known finding F36).",
+		Explanation:  "Decides the bookkeeping pairing behind the store count: (R1) in Btree.Add and Btree.AddItem StoreInfo.Count++ executes on exactly the paths that return (true, nil); in Btree.RemoveCurrentItem Count-- executes exactly once on every path on which a removal primitive succeeded and that does not return an error, and on no other path; no other function of package btree writes Count; (R2) the committed delta is Count minus the count seen at open (getCommitStoresInfo), the rollback delta is the same operands swapped (getRollbackStoresInfo), and fs.StoreRepository.Update adds the caller's delta to the freshly read count of the same store under the store lock (shared with C13.R3); (R3) the refetch-and-merge closure resets both StoreInfo.Count and the count-at-open baseline from the same freshly read store record before replaying, and the only other writer of the baseline is the constructor; (R4) rollback applies the reverse delta only when the commit had passed the commitStoreInfo step and never to stores this transaction created. (R5) positional pairing of rollback store infos and backends; (R6) in fs.StoreRepository.Update and its undo closure the record put into the cache after a write is the record that was written; (R7) the count delta a dead transaction's log replay must subtract is carried by an encoded field of the log record (StoreInfo.CountDelta itself is excluded from JSON). (R8) the window between writing the store counts and logging the next step must be covered by recovery (known finding F36). (R9) transactionLog.log advances committedState on every path, also when the backend rejects the record: the live rollback reverses the count under committedState > commitStoreInfo, and the count is applied before the next step is logged (shared with C07.R9).",
 		DoesNotCover: "The arithmetic outcome of concurrent merges and the Cassandra StoreRepository sibling are not decided; that every structural operation keeps the number of occupied slots equal to Count is C17's (undecided) territory.",
 	}, runC06)
 }
@@ -613,6 +613,8 @@ func runC06(c *Ctx) {
 	replayDeltaRule(c, r7)
 	r8 := c.Rule("R8", "the window between writing the store counts and logging the next step is covered by recovery: commitStores runs strictly between log(commitStoreInfo) and log(beforeFinalize), and counts (unlike staged nodes) are visible without the commit point, so the replay of a log that ENDS with commitStoreInfo must be able to reverse what was applied - a strict `last > commitStoreInfo` gate with nothing that tells applied from unapplied deltas cannot", 2)
 	storeCountWindowRule(c, r8)
+	r9 := c.Rule("R9", "the count reversal of a failed commit is gated by committedState > commitStoreInfo, so the marker must advance when the log write of the next step is attempted, not only when it succeeds: transactionLog.log assigns committedState = f on every path (shared with C07.R9)", 2)
+	stepMarkerRule(c, r9)
 
 }
 
